@@ -290,6 +290,17 @@ def run_c19(ctx):
         ctx.check(raw == " %s " % TOKENS_REF.get(name, "?"), "DISPLAY-TOK", name + " spacing", repr(raw),
                   "%s prints %r (binary operators are separated by single spaces)" % (name, raw), f.loc(), fn=f.name)
 
+    # a word operator printed in front of its operand needs a separator: `NOT x`, never `NOTx` (which reads as a column name)
+    uf, uS = model["UnOp"]["fn"], model["UnOp"]["S"]
+    sep_writes = [1 for b_ in model["UnOp"]["blocks"] for tt in [uf.blocks[b_]["term"]] if tt["t"] == "call" and
+                  re.search(r"write_(str|char)$", tt.get("callee") or "") and re.search(r"(s:' +'|c:32)$", uS.val(tt["args"][1]))]
+    for d, name in un_vs.items():
+        raw = utok.get(d) or ""
+        if raw.strip().isalpha():
+            ctx.check(raw.endswith(" ") or bool(sep_writes), "DISPLAY-TOK", name + " separator", repr(raw),
+                      "%s prints %r directly in front of its operand: `NOT x` is printed as `NOTx`, which reads as a column name" % (name, raw),
+                      uf.loc(), fn=uf.name, key="DISPLAY-TOK|%s|sep" % name)
+
     # grammar level of each operator
     glevel = {}
     for name, t in tok.items():
